@@ -67,7 +67,7 @@ def case_schedule(ctx, i):
                 continue
             for j, k in dec:
                 tot[k] += ts[j]
-            if abs(tot[0] - N) > 1e-12 * max(1, N) or abs(tot[1] - N) > 1e-12 * max(1, N):
+            if not (abs(tot[0] - N) <= 1e-12 * max(1, N)) or not (abs(tot[1] - N) <= 1e-12 * max(1, N)):
                 ctx.violation('suzuki_trotter_decomposition:time-does-not-add-up', 'order %r N_steps %d: even bonds evolve for %r, odd bonds '
                               'for %r steps' % (order, N, tot[0], tot[1]), {'order': order, 'N': N})
             # consecutive entries act on alternating bond parities (otherwise two factors could have been merged / are misordered)
@@ -144,7 +144,7 @@ def make_spec(rng, nn_only, timedep):
         if c == 0:
             for _ in range(20):
                 o = s.get_op(n1).to_ndarray()
-                if np.linalg.norm(o - np.diag(np.diag(o))) > 1e-12:
+                if not (np.linalg.norm(o - np.diag(np.diag(o))) <= 1e-12):
                     break
                 n1 = C10.op_names(s, rng, 'fermionic' if rng.random() < 0.5 else 'bosonic') or n1
             n2 = s.get_hc_op_name(n1)
@@ -361,12 +361,12 @@ def engine_case(ctx, i, engine_name, opts, model_kind, nn_only, expected_order, 
     # ---- ledger: evolved time
     ctx.count('ledger.time_checked')
     want_t = start_time + n_tot * dt
-    if abs(eng.evolved_time - want_t) > 1e-12 * max(1, abs(want_t)):
+    if not (abs(eng.evolved_time - want_t) <= 1e-12 * max(1, abs(want_t))):
         ctx.violation(tag + ':evolved_time-differs-from-steps-times-dt', 'evolved_time = %r after %d runs of %d steps of %r from '
                       'start_time %r (expected %r)' % (eng.evolved_time, runs, N_steps, dt, start_time, want_t), case)
     if timedep:
         mt = eng.model.options.get('time', None)
-        if mt is None or abs(mt - want_t) > 1e-12 * max(1, abs(want_t)):
+        if mt is None or not (abs(mt - want_t) <= 1e-12 * max(1, abs(want_t))):
             ctx.violation(tag + ':model-time-differs-from-evolved_time', 'model.options[time] = %r, evolved_time %r' % (mt, eng.evolved_time), case)
     # ---- ledger: truncation error.  engine attribute == start + sum of evolve() returns (== sum of truncations performed)
     ctx.count('ledger.trunc_checked')
@@ -376,7 +376,7 @@ def engine_case(ctx, i, engine_name, opts, model_kind, nn_only, expected_order, 
         ctx.count('ledger.trunc_nonzero')
     got = float(eng.trunc_err.eps)
     tol = 1e-10 * max(1e-6, sum_evolve + start_eps)
-    if abs(got - (start_eps + sum_evolve)) > tol:
+    if not (abs(got - (start_eps + sum_evolve)) <= tol):
         ctx.violation(tag + ':trunc_err-differs-from-sum-of-step-errors', 'engine.trunc_err.eps = %r but start (%r) + sum of the errors '
                       'returned by the %d evolve() calls = %r (sum over the %d truncate() calls: %r)' %
                       (got, start_eps, len(led.evolve_eps), start_eps + sum_evolve, len(led.truncate_eps), sum_trunc), case)
@@ -384,7 +384,7 @@ def engine_case(ctx, i, engine_name, opts, model_kind, nn_only, expected_order, 
     if deep and engine_name != 'QRBasedTEBDEngine' and 'Krylov_params' not in opts:
         # (the basis extension of TDVP truncates the vectors it adds, not the state: those truncate() calls are not errors of psi)
         ctx.count('ledger.deep_checked')
-        if abs(sum_evolve - sum_trunc) > 1e-10 * max(1e-6, sum_trunc):
+        if not (abs(sum_evolve - sum_trunc) <= 1e-10 * max(1e-6, sum_trunc)):
             ctx.violation(tag + ':evolve-return-differs-from-sum-of-truncations', 'sum of evolve() returns %r, sum over the %d truncations '
                           'performed %r' % (sum_evolve, len(led.truncate_eps), sum_trunc), case)
     # ---- the state
@@ -393,7 +393,7 @@ def engine_case(ctx, i, engine_name, opts, model_kind, nn_only, expected_order, 
     except NotImplementedError:
         ctx.violation(tag + ':non-diagonal-S-left-in-result', '', case)
         return
-    if np.linalg.norm(v[~mask]) > 1e-10 * max(1., np.linalg.norm(v)):
+    if not (np.linalg.norm(v[~mask]) <= 1e-10 * max(1., np.linalg.norm(v))):
         ctx.violation(tag + ':leaves-charge-sector', 'weight outside the sector of the initial state: %r' % np.linalg.norm(v[~mask]), case)
     ref = exact_evolution(sites, spec, v0, start_time, dt, n_tot, timedep)
     if imaginary:
@@ -422,7 +422,7 @@ def engine_case(ctx, i, engine_name, opts, model_kind, nn_only, expected_order, 
     if exact_regime:
         ctx.count('regime.exact')
         # absolute sanity: O(1) errors are never acceptable for these step sizes
-        if scale * dt_abs < 0.3 and err1 > 0.3 * min(1., (scale * dt_abs) * n_tot * 3):
+        if scale * dt_abs < 0.3 and not (err1 <= 0.3 * min(1., (scale * dt_abs) * n_tot * 3)):
             ctx.violation(tag + ':state-far-from-exp(-iHt)psi0', 'relative distance %r after %d steps of %r (|H| = %.2f)' %
                           (err1, n_tot, dt, scale), case)
         # ---- order: same total time with the step halved (repeatedly, until the asymptotic regime shows or the floor is reached)
@@ -469,14 +469,14 @@ def engine_case(ctx, i, engine_name, opts, model_kind, nn_only, expected_order, 
             nrm = float(np.linalg.norm(v))
             if unitary and not preserve_norm:
                 ctx.count('conservation.norm_checked')
-                if abs(nrm - 1) > 1e-8:
+                if not (abs(nrm - 1) <= 1e-8):
                     ctx.violation(tag + ':norm-not-conserved-by-unitary-evolution', '|psi| = %r (preserve_norm=False)' % nrm, case)
             if not timedep:
                 e0 = float(np.real(np.vdot(v0, H0 @ v0)))
                 e1 = float(np.real(np.vdot(v, H0 @ v)) / nrm**2)
                 ctx.count('conservation.energy_checked')
                 etol = 1e-7 * scale if tangent else max(1e-7, 20 * err1) * scale
-                if abs(e1 - e0) > etol:
+                if not (abs(e1 - e0) <= etol):
                     ctx.violation(tag + ':energy-not-conserved', '<H> changed from %r to %r (state error %.2e)' % (e0, e1, err1), case)
     elif truncating:
         # truncating runs: tangent-space engines still conserve norm and energy (one-site TDVP exactly)
@@ -485,7 +485,7 @@ def engine_case(ctx, i, engine_name, opts, model_kind, nn_only, expected_order, 
             e0 = float(np.real(np.vdot(v0, H0 @ v0)))
             e1 = float(np.real(np.vdot(v, H0 @ v)) / nrm**2)
             ctx.count('conservation.energy_checked_truncated')
-            if abs(e1 - e0) > 1e-7 * scale:
+            if not (abs(e1 - e0) <= 1e-7 * scale):
                 ctx.violation(tag + ':energy-not-conserved', '<H> changed from %r to %r in one-site TDVP' % (e0, e1), case)
     # ---- splitting the same total time differently over run() calls gives the same state (untruncated)
     # (not with the basis extension of TDVP: it runs once per run() call with random / rank-deficient directions, and the following
@@ -508,7 +508,7 @@ def engine_case(ctx, i, engine_name, opts, model_kind, nn_only, expected_order, 
         d = float(np.linalg.norm(v3 - v) / np.linalg.norm(v))
         # (the basis extension of TDVP runs once per run() call: it changes the tangent space and with it the O(dt^2) error terms)
         dtol = 1e-8 if 'Krylov_params' not in opts else max(1e-8, 3 * err1)
-        if d > dtol or abs(eng3.evolved_time - eng.evolved_time) > 1e-12:
+        if not (d <= dtol) or not (abs(eng3.evolved_time - eng.evolved_time) <= 1e-12):
             ctx.violation(tag + ':result-depends-on-split-into-run-calls', '%d runs of %d steps vs one run of %d steps: states differ by %r, '
                           'evolved_time %r vs %r' % (runs, N_steps, n_tot, d, eng.evolved_time, eng3.evolved_time), case)
     ctx.sig((engine_name, kind, L, imaginary, truncating, entangled, tuple(sorted((k, str(v)) for k, v in opts.items()
